@@ -1,5 +1,373 @@
-import Honeycomb.Model.Ops2
-import Honeycomb.Model.WF
+/-
+  C01 — 2-map structural integrity survives every editing history.
+
+  Statement proved: for every attribute configuration `cfg` (any number of storages, any laws),
+  every map `m` with `WF 3 m`, and every finite list of public editing calls whose dart arguments
+  are non-null in-use darts at the time of the call (distinct darts for 2-links/2-sews; a free
+  dart for `remove_free_dart_transac`, which is that method's own precondition), the map reached
+  after the whole history is `WF 3` again — whether the individual calls succeed, return an
+  error, or panic (refuse).
+-/
+import Honeycomb.Lemmas.WFLink
+import Honeycomb.Lemmas.WFAlloc
+import Honeycomb.Model.Val
+
+set_option linter.unusedSimpArgs false
+
 namespace HC.C01
-theorem C01_history_preserves_WF : True := trivial
+open HC
+variable {X : Type}
+
+/-- public editing calls of `CMap2` (the `force_` variants run the same closure through
+    `atomically_with_err`, hence share the constructor) -/
+inductive Op2 where
+  | link (i l r : Nat)
+  | unlink (i l : Nat)
+  | sew (i l r : Nat)
+  | unsew (i l : Nat)
+  | addFreeDarts (k : Nat)
+  | insertFreeDart
+  | removeFreeDart (d : Nat)
+  | removeFreeDartTx (d : Nat)
+  deriving Repr, DecidableEq
+
+/-- the transactional closure of a call (`assert!(I < 3); assert_ne!(I, 0)` ⇒ `panic`) -/
+def prog (cfg : Cfg X) (n : Nat) : Op2 → P X Unit
+  | .link 1 l r => oneLinkCore l r
+  | .link 2 l r => iLinkCore 2 l r
+  | .unlink 1 l => oneUnlinkCore l
+  | .unlink 2 l => iUnlinkCore 2 l
+  | .sew 1 l r => oneSew2 cfg n l r
+  | .sew 2 l r => twoSew2 cfg n l r
+  | .unsew 1 l => oneUnsew2 cfg n l
+  | .unsew 2 l => twoUnsew2 cfg n l
+  | .removeFreeDartTx d => do let _ ← removeFreeDartTx d; pure ()
+  | _ => Prog.panic
+
+/-- one public call, as the user observes it (state after the call) -/
+def step (cfg : Cfg X) (m : Map X) : Op2 → Map X
+  | .addFreeDarts k => (m.addFreeDarts k).2
+  | .insertFreeDart => m.insertFreeDart.2
+  | .removeFreeDart d => (m.removeFreeDart 3 d).2
+  | op => (atomically (prog cfg m.n op) m).2
+
+/-- a non-null, existing, not removed dart -/
+def InUse (m : Map X) (d : Nat) : Prop := d ≠ 0 ∧ d < m.n ∧ m.unused d = false
+
+/-- the argument guard of the property -/
+def ArgsOK (m : Map X) : Op2 → Prop
+  | .link i l r => InUse m l ∧ InUse m r ∧ (i = 2 → l ≠ r)
+  | .sew i l r => InUse m l ∧ InUse m r ∧ (i = 2 → l ≠ r)
+  | .unlink _ l => InUse m l
+  | .unsew _ l => InUse m l
+  | .addFreeDarts _ => True
+  | .insertFreeDart => True
+  | .removeFreeDart d => InUse m d
+  | .removeFreeDartTx d => InUse m d ∧ m.isFree 3 d = true
+
+/-- every call of the history has admissible arguments in the state it is applied to -/
+def HistoryOK (cfg : Cfg X) : Map X → List Op2 → Prop
+  | _, [] => True
+  | m, op :: ops => ArgsOK m op ∧ HistoryOK cfg (step cfg m op) ops
+
+instance (m : Map X) (d : Nat) : Decidable (InUse m d) :=
+  inferInstanceAs (Decidable (d ≠ 0 ∧ d < m.n ∧ m.unused d = false))
+
+instance (m : Map X) : (op : Op2) → Decidable (ArgsOK m op)
+  | .link i l r => inferInstanceAs (Decidable (InUse m l ∧ InUse m r ∧ (i = 2 → l ≠ r)))
+  | .sew i l r => inferInstanceAs (Decidable (InUse m l ∧ InUse m r ∧ (i = 2 → l ≠ r)))
+  | .unlink _ l => inferInstanceAs (Decidable (InUse m l))
+  | .unsew _ l => inferInstanceAs (Decidable (InUse m l))
+  | .addFreeDarts _ => isTrue trivial
+  | .insertFreeDart => isTrue trivial
+  | .removeFreeDart d => inferInstanceAs (Decidable (InUse m d))
+  | .removeFreeDartTx d => inferInstanceAs (Decidable (InUse m d ∧ m.isFree 3 d = true))
+
+instance instDecHistoryOK (cfg : Cfg X) : (m : Map X) → (ops : List Op2) → Decidable (HistoryOK cfg m ops)
+  | _, [] => isTrue trivial
+  | m, op :: ops =>
+      @instDecidableAnd _ _ (inferInstanceAs (Decidable (ArgsOK m op))) (instDecHistoryOK cfg (step cfg m op) ops)
+
+/-! ## successful closures preserve WF -/
+
+/-- `p` keeps the map well-formed whenever it returns `Ok`, from WF states satisfying `Q` -/
+def Safe (Q : Map X → Prop) {α : Type} (p : P X α) : Prop :=
+  ∀ (m m' : Map X) (a : α), WF 3 m → Q m → run p m = (.ok a, m') → WF 3 m'
+
+theorem Safe.ro_bind {Q : Map X → Prop} {α β : Type} {p : P X α} {f : α → P X β}
+    (hp : ReadOnly p) (hf : ∀ a, Safe Q (f a)) : Safe Q (p.bind f) := by
+  intro m m' b hwf hq h
+  obtain ⟨a, m1, h1, h2⟩ := run_bind_ok h
+  have := hp.run_ok h1; subst this
+  exact hf a _ _ b hwf hq h2
+
+theorem Safe.bind_attr {Q : Map X → Prop} {α β : Type} {p : P X α} {f : α → P X β}
+    (hp : Safe Q p) (hf : ∀ a, AttrOnly (f a)) : Safe Q (p.bind f) := by
+  intro m m' b hwf hq h
+  obtain ⟨a, m1, h1, h2⟩ := run_bind_ok h
+  have w1 := hp _ _ a hwf hq h1
+  have st := hf a m1; rw [h2] at st
+  exact w1.sameTopo st
+
+theorem Safe.of_attrOnly {Q : Map X → Prop} {α : Type} {p : P X α} (hp : AttrOnly p) : Safe Q p := by
+  intro m m' a hwf _ h
+  have st := hp m; rw [h] at st
+  exact hwf.sameTopo st
+
+theorem Safe.ite {Q : Map X → Prop} {α : Type} {c : Prop} [Decidable c] {p q : P X α}
+    (hp : Safe Q p) (hq : Safe Q q) : Safe Q (if c then p else q) := by
+  split <;> assumption
+
+theorem Safe.abort {Q : Map X → Prop} {α : Type} (e : Err) : Safe Q (abort e : P X α) := by
+  intro m m' a _ _ h; simp at h
+
+theorem Safe.panic {Q : Map X → Prop} {α : Type} : Safe Q (Prog.panic : P X α) := by
+  intro m m' a _ _ h; simp at h
+
+theorem inUse_ok {m : Map X} (h : WF 3 m) {d : Nat} (hd : InUse m d) : d ≠ 0 ∧ d < m.n ∧ m.unused d = false := hd
+
+theorem safe_oneLinkCore (l r : Nat) :
+    Safe (fun m : Map X => InUse m l ∧ InUse m r) (oneLinkCore l r) := by
+  intro m m' u hwf ⟨hl, hr⟩ h
+  obtain ⟨_, _, h1, h0, rfl⟩ := oneLinkCore_ok h
+  exact hwf.link1 (by omega) hl.1 hr.1 hl.2.1 hr.2.1 hl.2.2 hr.2.2 h1 h0
+
+theorem safe_twoLinkCore (l r : Nat) :
+    Safe (fun m : Map X => InUse m l ∧ InUse m r ∧ l ≠ r) (iLinkCore 2 l r) := by
+  intro m m' u hwf ⟨hl, hr, hlr⟩ h
+  obtain ⟨_, _, h1, h0, rfl⟩ := iLinkCore_ok h
+  exact hwf.linkI (by omega) (by omega) hl.1 hr.1 hlr hl.2.1 hr.2.1 hl.2.2 hr.2.2 h1 h0
+
+theorem safe_oneUnlinkCore (l : Nat) : Safe (fun m : Map X => InUse m l) (oneUnlinkCore l) := by
+  intro m m' u hwf hl h
+  obtain ⟨_, _, hne, rfl⟩ := oneUnlinkCore_ok h
+  exact hwf.unlink1 (by omega) hl.2.1 hne
+
+theorem safe_twoUnlinkCore (l : Nat) : Safe (fun m : Map X => InUse m l) (iUnlinkCore 2 l) := by
+  intro m m' u hwf hl h
+  obtain ⟨_, _, hne, rfl⟩ := iUnlinkCore_ok h
+  exact hwf.unlinkI (by omega) (by omega) hl.2.1 hne
+
+theorem Safe.mono {Q Q' : Map X → Prop} {α : Type} {p : P X α} (h : Safe Q p) (hq : ∀ m, Q' m → Q m) :
+    Safe Q' p := fun m m' a hwf hq' hr => h m m' a hwf (hq m hq') hr
+
+/-- vertex ids, merges and splits never touch the topology -/
+theorem ao_vid (n d : Nat) : AttrOnly (vertexId2 (X := X) n d) := AttrOnly.of_readOnly (readOnly_vertexId2 n d)
+theorem ao_eid (d : Nat) : AttrOnly (edgeId2 (X := X) d) := AttrOnly.of_readOnly (readOnly_edgeId2 d)
+
+theorem safe_oneSew2 (cfg : Cfg X) (n l r : Nat) :
+    Safe (fun m : Map X => InUse m l ∧ InUse m r) (oneSew2 cfg n l r) := by
+  unfold oneSew2
+  refine Safe.ro_bind (ReadOnly.rB _ _) fun b2l => ?_
+  refine Safe.ite (safe_oneLinkCore l r) ?_
+  refine Safe.ro_bind (readOnly_vertexId2 _ _) fun v1 => ?_
+  refine Safe.ro_bind (readOnly_vertexId2 _ _) fun v2 => ?_
+  refine Safe.bind_attr (safe_oneLinkCore l r) fun _ => ?_
+  refine AttrOnly.bind (ao_vid _ _) fun nv => ?_
+  exact AttrOnly.bind (attrOnly_mergeS _ _ _ _ _) fun _ => attrOnly_mergeAttrs _ _ _ _ _
+
+theorem safe_oneUnsew2 (cfg : Cfg X) (n l : Nat) :
+    Safe (fun m : Map X => InUse m l) (oneUnsew2 cfg n l) := by
+  unfold oneUnsew2
+  refine Safe.ro_bind (ReadOnly.rB _ _) fun b2l => ?_
+  refine Safe.ite (safe_oneUnlinkCore l) ?_
+  refine Safe.ro_bind (ReadOnly.rB _ _) fun r => ?_
+  refine Safe.ro_bind (readOnly_vertexId2 _ _) fun vold => ?_
+  refine Safe.bind_attr (safe_oneUnlinkCore l) fun _ => ?_
+  refine AttrOnly.bind (ao_vid _ _) fun nl => ?_
+  refine AttrOnly.bind (ao_vid _ _) fun nr => ?_
+  exact AttrOnly.bind (attrOnly_splitS _ _ _ _ _) fun _ => attrOnly_splitAttrs _ _ _ _ _
+
+theorem safe_twoSew2 (cfg : Cfg X) (n l r : Nat) :
+    Safe (fun m : Map X => InUse m l ∧ InUse m r ∧ l ≠ r) (twoSew2 cfg n l r) := by
+  unfold twoSew2
+  refine Safe.ro_bind (ReadOnly.rB _ _) fun b1l => ?_
+  refine Safe.ro_bind (ReadOnly.rB _ _) fun b1r => ?_
+  refine Safe.ite ?_ (Safe.ite ?_ (Safe.ite ?_ ?_))
+  · refine Safe.bind_attr (safe_twoLinkCore l r) fun _ => ?_
+    exact AttrOnly.bind (ao_eid _) fun _ => attrOnly_mergeAttrs _ _ _ _ _
+  · refine Safe.ro_bind (readOnly_vertexId2 _ _) fun _ => ?_
+    refine Safe.ro_bind (readOnly_vertexId2 _ _) fun _ => ?_
+    refine Safe.bind_attr (safe_twoLinkCore l r) fun _ => ?_
+    refine AttrOnly.bind (ao_vid _ _) fun _ => ?_
+    refine AttrOnly.bind (ao_eid _) fun _ => ?_
+    refine AttrOnly.bind (attrOnly_mergeS _ _ _ _ _) fun _ => ?_
+    exact AttrOnly.bind (attrOnly_mergeAttrs _ _ _ _ _) fun _ => attrOnly_mergeAttrs _ _ _ _ _
+  · refine Safe.ro_bind (readOnly_vertexId2 _ _) fun _ => ?_
+    refine Safe.ro_bind (readOnly_vertexId2 _ _) fun _ => ?_
+    refine Safe.bind_attr (safe_twoLinkCore l r) fun _ => ?_
+    refine AttrOnly.bind (ao_vid _ _) fun _ => ?_
+    refine AttrOnly.bind (ao_eid _) fun _ => ?_
+    refine AttrOnly.bind (attrOnly_mergeS _ _ _ _ _) fun _ => ?_
+    exact AttrOnly.bind (attrOnly_mergeAttrs _ _ _ _ _) fun _ => attrOnly_mergeAttrs _ _ _ _ _
+  · refine Safe.ro_bind (readOnly_vertexId2 _ _) fun _ => ?_
+    refine Safe.ro_bind (readOnly_vertexId2 _ _) fun _ => ?_
+    refine Safe.ro_bind (readOnly_vertexId2 _ _) fun _ => ?_
+    refine Safe.ro_bind (readOnly_vertexId2 _ _) fun _ => ?_
+    refine Safe.ro_bind (ReadOnly.rA _ _) fun _ => ?_
+    refine Safe.ro_bind (ReadOnly.rA _ _) fun _ => ?_
+    refine Safe.ro_bind (ReadOnly.rA _ _) fun _ => ?_
+    refine Safe.ro_bind (ReadOnly.rA _ _) fun _ => ?_
+    refine Safe.ite (Safe.abort _) ?_
+    refine Safe.bind_attr (safe_twoLinkCore l r) fun _ => ?_
+    refine AttrOnly.bind (ao_vid _ _) fun _ => ?_
+    refine AttrOnly.bind (ao_vid _ _) fun _ => ?_
+    refine AttrOnly.bind (ao_eid _) fun _ => ?_
+    refine AttrOnly.bind (attrOnly_mergeS _ _ _ _ _) fun _ => ?_
+    refine AttrOnly.bind (attrOnly_mergeS _ _ _ _ _) fun _ => ?_
+    refine AttrOnly.bind (attrOnly_mergeAttrs _ _ _ _ _) fun _ => ?_
+    exact AttrOnly.bind (attrOnly_mergeAttrs _ _ _ _ _) fun _ => attrOnly_mergeAttrs _ _ _ _ _
+
+theorem safe_twoUnsew2 (cfg : Cfg X) (n l : Nat) :
+    Safe (fun m : Map X => InUse m l) (twoUnsew2 cfg n l) := by
+  unfold twoUnsew2
+  refine Safe.ro_bind (ReadOnly.rB _ _) fun r => ?_
+  refine Safe.ro_bind (ReadOnly.rB _ _) fun b1l => ?_
+  refine Safe.ro_bind (ReadOnly.rB _ _) fun b1r => ?_
+  refine Safe.ite ?_ (Safe.ite ?_ (Safe.ite ?_ ?_))
+  · refine Safe.ro_bind (readOnly_edgeId2 _) fun _ => ?_
+    exact Safe.bind_attr (safe_twoUnlinkCore l) fun _ => attrOnly_splitAttrs _ _ _ _ _
+  · refine Safe.ro_bind (readOnly_edgeId2 _) fun _ => ?_
+    refine Safe.ro_bind (readOnly_vertexId2 _ _) fun _ => ?_
+    refine Safe.bind_attr (safe_twoUnlinkCore l) fun _ => ?_
+    refine AttrOnly.bind (attrOnly_splitAttrs _ _ _ _ _) fun _ => ?_
+    refine AttrOnly.bind (ao_vid _ _) fun _ => ?_
+    refine AttrOnly.bind (ao_vid _ _) fun _ => ?_
+    exact AttrOnly.bind (attrOnly_splitS _ _ _ _ _) fun _ => attrOnly_splitAttrs _ _ _ _ _
+  · refine Safe.ro_bind (readOnly_edgeId2 _) fun _ => ?_
+    refine Safe.ro_bind (readOnly_vertexId2 _ _) fun _ => ?_
+    refine Safe.bind_attr (safe_twoUnlinkCore l) fun _ => ?_
+    refine AttrOnly.bind (attrOnly_splitAttrs _ _ _ _ _) fun _ => ?_
+    refine AttrOnly.bind (ao_vid _ _) fun _ => ?_
+    refine AttrOnly.bind (ao_vid _ _) fun _ => ?_
+    exact AttrOnly.bind (attrOnly_splitS _ _ _ _ _) fun _ => attrOnly_splitAttrs _ _ _ _ _
+  · refine Safe.ro_bind (readOnly_edgeId2 _) fun _ => ?_
+    refine Safe.ro_bind (readOnly_vertexId2 _ _) fun _ => ?_
+    refine Safe.ro_bind (readOnly_vertexId2 _ _) fun _ => ?_
+    refine Safe.bind_attr (safe_twoUnlinkCore l) fun _ => ?_
+    refine AttrOnly.bind (attrOnly_splitAttrs _ _ _ _ _) fun _ => ?_
+    refine AttrOnly.bind (ao_vid _ _) fun _ => ?_
+    refine AttrOnly.bind (ao_vid _ _) fun _ => ?_
+    refine AttrOnly.bind (ao_vid _ _) fun _ => ?_
+    refine AttrOnly.bind (ao_vid _ _) fun _ => ?_
+    refine AttrOnly.bind (attrOnly_splitS _ _ _ _ _) fun _ => ?_
+    refine AttrOnly.bind (attrOnly_splitAttrs _ _ _ _ _) fun _ => ?_
+    exact AttrOnly.bind (attrOnly_splitS _ _ _ _ _) fun _ => attrOnly_splitAttrs _ _ _ _ _
+
+/-! ## one call -/
+
+theorem wf_atomically {Q : Map X → Prop} {α : Type} {p : P X α} (hp : Safe Q p) {m : Map X}
+    (hwf : WF 3 m) (hq : Q m) : WF 3 (atomically p m).2 := by
+  unfold atomically
+  match h : run p m with
+  | (.ok a, m') => simp only [h]; exact hp m m' a hwf hq h
+  | (.err e, m') => simp only [h]; exact hwf
+  | (.retry, m') => simp only [h]; exact hwf
+  | (.panic, m') => simp only [h]; exact hwf
+
+/-- an error (or panic, or retry) of any transactional call publishes nothing -/
+theorem C01_failed_call_changes_nothing {α : Type} (p : P X α) (m : Map X)
+    (h : ∀ a, (atomically p m).1 ≠ .ok a) : (atomically p m).2 = m := by
+  unfold atomically at h ⊢
+  match hr : run p m with
+  | (.ok a, m') => simp only [hr] at h; exact absurd rfl (h a)
+  | (.err e, m') => rfl
+  | (.retry, m') => rfl
+  | (.panic, m') => rfl
+
+theorem safe_prog (cfg : Cfg X) (n : Nat) (op : Op2) :
+    Safe (fun m : Map X => ArgsOK m op) (prog cfg n op) := by
+  unfold prog
+  split
+  · exact (safe_oneLinkCore _ _).mono fun m h => ⟨h.1, h.2.1⟩
+  · exact (safe_twoLinkCore _ _).mono fun m h => ⟨h.1, h.2.1, h.2.2 rfl⟩
+  · exact (safe_oneUnlinkCore _).mono fun m h => h
+  · exact (safe_twoUnlinkCore _).mono fun m h => h
+  · exact (safe_oneSew2 _ _ _ _).mono fun m h => ⟨h.1, h.2.1⟩
+  · exact (safe_twoSew2 _ _ _ _).mono fun m h => ⟨h.1, h.2.1, h.2.2 rfl⟩
+  · exact (safe_oneUnsew2 _ _ _).mono fun m h => h
+  · exact (safe_twoUnsew2 _ _ _).mono fun m h => h
+  · rename_i d
+    intro m m' a hwf hq h
+    obtain ⟨b, m1, h1, h2⟩ := run_bind_ok h
+    rw [run_removeFreeDartTx] at h1
+    have hok : m.okU d = true := (hwf.toSized.okU d).2 hq.1.2.1
+    simp only [hok, if_true, Prod.mk.injEq] at h1
+    simp at h2
+    rw [← h2, ← h1.2]
+    exact hwf.setU_free hq.1.2.1 true ((isFree_iff m 3 d).1 hq.2)
+  · exact Safe.panic
+
+/-- **C01, one call**: every public editing call with admissible arguments keeps a well-formed
+    2-map well-formed (success, error and panic branches alike) -/
+theorem C01_step_preserves_WF (cfg : Cfg X) (m : Map X) (op : Op2)
+    (hwf : WF 3 m) (hargs : ArgsOK m op) : WF 3 (step cfg m op) := by
+  cases op with
+  | addFreeDarts k => exact hwf.addFreeDarts (by omega) k
+  | insertFreeDart => exact hwf.insertFreeDart (by omega)
+  | removeFreeDart d => exact hwf.removeFreeDart d
+  | link i l r => exact wf_atomically (safe_prog cfg m.n _) hwf hargs
+  | unlink i l => exact wf_atomically (safe_prog cfg m.n _) hwf hargs
+  | sew i l r => exact wf_atomically (safe_prog cfg m.n _) hwf hargs
+  | unsew i l => exact wf_atomically (safe_prog cfg m.n _) hwf hargs
+  | removeFreeDartTx d => exact wf_atomically (safe_prog cfg m.n _) hwf hargs
+
+/-- **C01**: well-formedness survives every finite editing history -/
+theorem C01_history_preserves_WF (cfg : Cfg X) (ops : List Op2) :
+    ∀ m : Map X, WF 3 m → HistoryOK cfg m ops → WF 3 (ops.foldl (step cfg) m) := by
+  induction ops with
+  | nil => intro m h _; exact h
+  | cons op ops ih =>
+      intro m h hh
+      exact ih _ (C01_step_preserves_WF cfg m op h hh.1) hh.2
+
+/-- removed darts are nobody's image on a well-formed map (the last clause of the property's
+    definition of well-formed follows from the others) -/
+theorem C01_unused_is_nobodys_image {m : Map X} (h : WF 3 m) : NoImageOfUnused 3 m := by
+  intro i hi e he hu
+  by_cases h0 : m.β i e = 0
+  · exact h0
+  · exfalso
+    have hr := h.range i hi e he
+    have hfree := h.unusedFree _ hr hu
+    have : i = 0 ∨ i = 1 ∨ i = 2 := by omega
+    rcases this with rfl | rfl | rfl
+    · have := h.inv10 e he h0
+      rw [hfree 1 (by omega)] at this
+      subst this
+      exact h0 (h.null 0 (by omega))
+    · have := h.inv01 e he h0
+      rw [hfree 0 (by omega)] at this
+      subst this
+      exact h0 (h.null 1 (by omega))
+    · have := (h.invol 2 (by omega) (by omega) e he h0).1
+      rw [hfree 2 (by omega)] at this
+      subst this
+      exact h0 (h.null 2 (by omega))
+
+/-! ## non-vacuity: a concrete well-formed map and an admissible history of every op kind -/
+
+/-- two triangles 1-2-3 and 4-5-6, darts 7, 8 free, dart 8 removed -/
+def exMap : Map Val :=
+  { (Map.empty 3 6 9 : Map Val) with
+    b := #[#[0, 3, 1, 2, 6, 4, 5, 0, 0], #[0, 2, 3, 1, 5, 6, 4, 0, 0], #[0, 0, 0, 0, 0, 0, 0, 0, 0]]
+    u := #[false, false, false, false, false, false, false, false, true]
+    a := #[#[none, some (.pt 0 0 0), some (.pt 1 0 0), some (.pt 0 1 0), some (.pt 0 2 0), some (.pt 2 0 0),
+             some (.pt 1 1 0), some (.pt 5 5 0), none],
+           #[none, some (.tm (.leaf 1)), none, some (.tm (.leaf 3)), none, none, none, none, none, none],
+           #[none, none, some (.tm (.leaf 2)), none, some (.tm (.leaf 4)), none, none, none, none, none],
+           Array.replicate 10 none, Array.replicate 10 none, Array.replicate 10 none] }
+
+def exHistory : List Op2 :=
+  [.sew 2 2 4, .unsew 2 2, .link 2 1 5, .unlink 1 3, .sew 1 3 7, .unsew 1 3, .unlink 2 1, .link 1 7 7,
+   .unlink 1 7, .removeFreeDart 7, .insertFreeDart, .addFreeDarts 2, .link 2 9 10, .removeFreeDartTx 7]
+
+example : WF 3 exMap := by decide
+example : HistoryOK (stdCfg 3 7) exMap exHistory := by decide +kernel
+/-- the history is not trivial: the 2-sew, the 1-sew and the allocations really happen -/
+example : ((exHistory.take 1).foldl (step (stdCfg 3 7)) exMap).β 2 2 = 4 := by decide +kernel
+example : (exHistory.foldl (step (stdCfg 3 7)) exMap).n = 11 := by decide +kernel
+example : WF 3 (exHistory.foldl (step (stdCfg 3 7)) exMap) :=
+  C01_history_preserves_WF _ _ _ (by decide) (by decide +kernel)
+
 end HC.C01
